@@ -69,7 +69,7 @@ class Circuit:
             if not all(map(lambda e: isinstance(e, Element), elements)):
                 raise TypeError(f"Expected a List[Element] instead of {elements=}")
             else:
-                elements = Series([elements])
+                elements = Series(elements)
         else:
             raise TypeError(
                 f"Expected a List[Element], Element, Series, or Parallel instead of {elements=}"
